@@ -92,6 +92,52 @@ Theorem C10_remove_laws : forall t k,
 Proof. exact remove_laws. Qed.
 Print Assumptions C10_remove_laws.
 
+(*    Tombstones.  Remove only flips a flag: Height and the leaf slots (tombstones
+      included) are unchanged ... *)
+Theorem C10_remove_keeps_shape : forall t k t',
+  inv t -> remove t k = Ok t' ->
+  height t' = height t /\ keys (all_entries t') = keys (all_entries t).
+Proof. exact remove_shape. Qed.
+Print Assumptions C10_remove_keeps_shape.
+
+(*    ... Put of a key that already has a slot (live OR tombstoned) adds no entry
+      and splits nothing ... *)
+Theorem C10_put_existing_slot_keeps_shape : forall t k v t',
+  inv t -> In k (keys (all_entries t)) -> put t k v = Ok t' ->
+  height t' = height t /\ keys (all_entries t') = keys (all_entries t).
+Proof. exact put_present_shape. Qed.
+Print Assumptions C10_put_existing_slot_keeps_shape.
+
+(*    ... so Remove k ; Put k v (re-put after remove) on ANY state: the key is
+      absent in between and present with the new value afterwards, every other
+      key is untouched, Size goes down (if k was live) and comes back — to
+      size t if k was live, size t + 1 if it was absent or already removed —
+      and a key that was ever put is revived in its old slot (same Height). *)
+Theorem C10_remove_then_put_revives : forall t k v,
+  inv t ->
+  exists t1 t2, remove t k = Ok t1 /\ put t1 k v = Ok t2 /\ inv t2 /\
+    get t1 k = Ok None /\ get t2 k = Ok (Some v) /\
+    (forall k', k' <> k -> get t2 k' = get t k') /\
+    size t1 = match get t k with Ok (Some _) => size t - 1 | _ => size t end /\
+    size t2 = match get t k with Ok (Some _) => size t | _ => size t + 1 end /\
+    (In k (keys (all_entries t)) ->
+       height t2 = height t /\ keys (all_entries t2) = keys (all_entries t)).
+Proof. exact revive. Qed.
+Print Assumptions C10_remove_then_put_revives.
+
+(*    A removed key in an internal position (it is also a separator of the root) *)
+Example C10_removed_separator_example :
+  exists t outs e c e0 t',
+    run [Put 1 10; Put 2 20; Put 3 30; Put 4 40; Remove 3] new = Ok (t, outs) /\
+    nth_error (entries (root t)) 1 = Some e /\ ekey e = 3 /\ enext e = Some c /\
+    hd_error (entries c) = Some e0 /\ ekey e0 = 3 /\ erem e0 = true /\
+    get t 3 = Ok None /\ get t 4 = Ok (Some 40) /\ get t 2 = Ok (Some 20) /\
+    traverse t = Ok [(1, 10); (2, 20); (4, 40)] /\ size t = 3 /\
+    put t 3 33 = Ok t' /\ get t' 3 = Ok (Some 33) /\ size t' = 4 /\
+    traverse t' = Ok [(1, 10); (2, 20); (3, 33); (4, 40)] /\
+    height t' = height t /\ length (all_entries t') = 4%nat.
+Proof. exact removed_separator_example. Qed.
+
 (* non-vacuity of [inv]: a reachable tree of height 3 (four levels) with tombstones *)
 Definition c10_example_ops : list op :=
   map (fun k => Put k (10 * k)) [7; 3; 9; 1; 5; 8; 2; 6; 4; 0; 11; 10; 13; 12; 15; 14; 17; 16; 19; 18]
@@ -131,6 +177,40 @@ Theorem C10_height_le_log2 : forall ops t outs,
   (height t <= Nat.log2 (Nat.max 1 (distinct_keys_ever ops)))%nat.
 Proof. exact height_le_log2. Qed.
 Print Assumptions C10_height_le_log2.
+
+(*    "never": at EVERY moment of every history (every prefix ops1 of ops1 ++ ops2),
+      against the number of distinct keys put up to that moment — which is at
+      most the final N — and the height only grows afterwards *)
+Theorem C10_height_log_at_every_moment : forall ops1 ops2 t2 outs,
+  run (ops1 ++ ops2) new = Ok (t2, outs) ->
+  exists t1 outs1, run ops1 new = Ok (t1, outs1) /\
+    (2 ^ height t1 <= Nat.max 1 (distinct_keys_ever ops1))%nat /\
+    (distinct_keys_ever ops1 <= distinct_keys_ever (ops1 ++ ops2))%nat /\
+    (height t1 <= height t2)%nat.
+Proof. exact height_every_moment. Qed.
+Print Assumptions C10_height_log_at_every_moment.
+
+(*    N counts the keys EVER put, removed ones included — and it has to: after
+      Put 1..4 and Remove 1..4 the map is empty (Size 0, IsEmpty, Traverse
+      visits nothing) but Height is 1, so "2^Height <= max 1 (live keys)" is
+      false; the four tombstones still occupy their leaf slots. *)
+Theorem C10_height_bound_counts_removed_keys :
+  exists t outs, run c10_all_removed_ops new = Ok (t, outs) /\
+    size t = 0 /\ is_empty t = true /\ traverse t = Ok [] /\ height t = 1%nat /\
+    distinct_keys_ever c10_all_removed_ops = 4%nat /\
+    length (all_entries t) = 4%nat.
+Proof. exact height_counts_removed_keys. Qed.
+Print Assumptions C10_height_bound_counts_removed_keys.
+
+(*    non-vacuity / tightness: the sharper bound 2^(Height+1) <= N is attained
+      at every level tried (descending insertion: 4 keys -> 1, 8 -> 2, 16 -> 3) *)
+Theorem C10_height_bound_attained :
+  (exists t outs, run (puts [1; 2; 3; 4]) new = Ok (t, outs) /\ height t = 1%nat) /\
+  (exists t outs, run (puts [8; 7; 6; 5; 4; 3; 2; 1]) new = Ok (t, outs) /\ height t = 2%nat) /\
+  (exists t outs, run (puts [16; 15; 14; 13; 12; 11; 10; 9; 8; 7; 6; 5; 4; 3; 2; 1]) new
+                  = Ok (t, outs) /\ height t = 3%nat).
+Proof. exact height_bound_attained. Qed.
+Print Assumptions C10_height_bound_attained.
 
 (* what the shape invariant really gives (one level better): *)
 Theorem C10_height_pow_sharp : forall ops t outs,
@@ -185,8 +265,8 @@ Proof. exact first_sep_stale. Qed.
 Print Assumptions C10_first_separator_is_stale.
 
 (* 10. The wire property checker used by the correspondence check (C10_Wire:
-      reference machine for Get/Size/IsEmpty/Traverse + 2^Height <= max 1 N after
-      every operation) accepts the model's observation of EVERY history — i.e.
+      reference machine for Get/Size/IsEmpty/Traverse (also in the middle of a
+      history) + 2^Height <= max 1 N after every operation) accepts the model's observation of EVERY history — i.e.
       the property, as judged on the wire, is a consequence of the theorems. *)
 Theorem C10_checker_accepts_model : forall ops : list wop,
   let w := flat_map enc_wop ops in c10_holds w (c10_run w) = true.
